@@ -60,8 +60,8 @@ def save_npz(filename, matrix, compressed=True):
     elif isinstance(matrix, GCXS):
         nodes["indices"] = matrix.indices
         nodes["indptr"] = matrix.indptr
-        if matrix.compressed_axes is not None:
-            nodes["compressed_axes"] = matrix.compressed_axes
+        # 0-d and 1-d arrays have no compressed axes (None): stored as an empty array
+        nodes["compressed_axes"] = () if matrix.compressed_axes is None else matrix.compressed_axes
 
     if compressed:
         np.savez_compressed(filename, **nodes)
@@ -124,7 +124,9 @@ def load_npz(filename):
             data = fp["data"]
             indices = fp["indices"]
             indptr = fp["indptr"]
-            comp_axes = fp["compressed_axes"] if "compressed_axes" in fp else None
+            comp_axes = fp["compressed_axes"]
+            if comp_axes.size == 0:
+                comp_axes = None
             shape = tuple(fp["shape"])
             fill_value = fp["fill_value"][()]
             return GCXS(
